@@ -256,6 +256,12 @@ def run(ctx):
         ctx.count()
         ctx.mark(('reap-after-reuse', maxchan), True)
         ctx.hist('directed:reap-after-reuse')
+    a, b = tg.closed_app_streaming_dst(ctx, ctx.rng, 'C06')
+    t_in.append(a)
+    t_out.append(b)
+    ctx.count()
+    ctx.mark(('closed-app-streaming-dst',), True)
+    ctx.hist('directed:closed-app-streaming-dst')
     tg.compare(ctx, t_in, t_out, 'C06')
     import sshuttle.ssnet as ssnet
     import sshuttle.helpers as helpers
